@@ -188,3 +188,27 @@ C[CC + '_sequence_comp@default'] = dict(
 C[CC + '_sequence_comp@adducts'] = dict(
     _COMMON, ghost=dict(CA='items(some(annotation._charge_adducts))[0]'),
     requires=_REQ + [('adducts-written', 'annotation._charge_adducts is not None and len(items(some(annotation._charge_adducts))) > 0')], ensures=_ENS)
+
+# ---------------------------------------------------------------- comp(): the composition with the residual mass shift absorbed by the averagine estimate
+MCQ = 'peptacular.mass_calc:'
+C[MCQ + 'comp_mass'] = dict(
+    params=dict(sequence='Annotation', ion_type='str', charge='Optional[int]', isotope='int', charge_adducts='Optional[ModList_item]',
+                isotope_mods='Optional[ModList]', use_isotope_on_mods='bool'),
+    returns='Tuple[Comp,real]', pure=True, trusted=True, raises={'ValueError': None},
+    bounded_by='composition + residual of a peptide: _sequence_comp proved above; the glue (copy, setters, condensing, popping the mass shifts) bounded/C03.py', ensures=[])
+C[CC + 'estimate_comp'] = dict(params=dict(neutral_mass='real', isotopic_mods='Optional[ModList]'), returns='Comp', pure=True, trusted=True,
+                               bounded_by='averagine estimate of a mass (ratios x mass / averagine mass): same monoisotopic mass checked by bounded/C03.py', ensures=[])
+_CMC = 'comp_mass(sequence, ion_type, charge, isotope, charge_adducts, isotope_mods, use_isotope_on_mods)'
+C[MCQ + 'comp'] = dict(
+    params=dict(sequence='Annotation', ion_type='str', estimate_delta='bool', charge='Optional[int]', isotope='int', charge_adducts='Optional[ModList_item]',
+                isotope_mods='Optional[ModList]', use_isotope_on_mods='bool'),
+    returns='Comp', pure=True, locals=dict(composition='Comp', delta_mass_comp='Comp'),
+    axioms=['WSUM-empty', 'WSUM-insert', 'TOT-def', 'A-FINSUM-UPDATE'],
+    raises={'ValueError': None}, raises_inexact=True,
+    ensures=[('no-residual-the-composition-itself', 'implies(' + _CMC + '[1] == 0, result == ' + _CMC + '[0])'),
+             ('a-residual-is-refused-unless-estimation-is-asked-for', 'implies(' + _CMC + '[1] != 0, estimate_delta)'),
+             ('the-estimate-of-the-residual-is-added',
+              'implies(' + _CMC + '[1] != 0, TOT(result) == TOT(' + _CMC + '[0]) + '
+              'TOT(estimate_comp(' + _CMC + '[1], (sequence._isotope_mods if use_isotope_on_mods else None))))')],
+    invariants={0: [('estimate-entries-added-so-far', 'TOT(composition) == TOT(composition_at0) + WSUM(delta_mass_comp, _seen0)')]},
+)
